@@ -72,13 +72,14 @@ class Horizon(Exception):
     """the batch of pre-iterations ran into the resolution horizon (C03 known finding): nothing to judge for C01"""
 
 
-def solve_case(N, bx, r, eps, f_u, density=None, pre=0, coarse=None, holder=None):
+def solve_case(N, bx, r, eps, f_u, density=None, pre=0, coarse=None, holder=None, constraints=0):
     lo, up = box(bx, N)
     lo_a = np.array(lo)
     w = np.array(up) - lo_a
     order = []
     rec = Recorder(on_iter=lambda pts, sol: order.extend((p.GetX(), p.GetZ()) for p in pts))
-    cfg = dict(N=N, box=bx, r=r, eps=eps, itersLimit=LIMIT, density=density, holder=holder)
+    cfg = dict(N=N, box=bx, r=r, eps=eps, itersLimit=LIMIT, density=density, holder=holder, constraints=constraints,
+               discrete=1 if constraints else 0)
     if coarse is not None:
         # two stages on one solver: Solve with a coarse eps and local refinement, then the user tightens
         # parameters.eps and calls Solve again - the second result must be certified for the tighter eps
@@ -130,7 +131,14 @@ def judge(N, r, eps, L, fstar, sol, order, m):
         ref.add(x, z)
     if k0 is None:
         k0 = len(order) - 1      # accuracy is claimed although no recorded trial split a sub-eps interval: last decision
+    if not order:
+        return "unconditional", (f"Solve returned after {n} trials (limit {LIMIT}) without a single completed trial: nothing "
+                                 f"is certified for eps={eps}"), None
     if len(ref.M_hist) < 2 or k0 < 1:
+        if eps < 1.0:
+            # one trial splits [0, 1], whose length 1 is not below eps: a Solve that stops there did not reach eps
+            return "unconditional", (f"Solve returned after a single trial (limit {LIMIT}) although the only subdivided "
+                                     f"interval has length 1 >= eps={eps}"), None
         return "too_short", None, None
     # M in force when that interval was chosen (for a plain Solve it is the last trial; when iterations were made in
     # batches before Solve the search may have gone on past it - the bound then follows from that earlier moment)
@@ -161,7 +169,7 @@ def family_case(task):
         f, L, fstar = (lambda u: a_ * f0(u) + b_), a_ * L, a_ * fstar + b_
     try:
         run, sol, order = solve_case(N, bx, r, eps, f, task.get("density"), task.get("pre", 0), task.get("coarse"),
-                                      task.get("holder"))
+                                      task.get("holder"), task.get("constraints", 0))
     except Horizon:
         return "resolution_horizon", None, None, 0
     except BaseException as e:
@@ -274,6 +282,8 @@ def plan_families(ctx):
         for L, r in ((1.0, 2.0), (3.0, 3.5)):
             tasks.append(dict(N=1, box="B1", r=r, eps=0.01, kind="zig", par=[list(slopes), L], holder="fresh"))
             tasks.append(dict(N=1, box="Z", r=r, eps=0.01, kind="zig", par=[list(slopes), L]))
+            # a Problem that declares constraints and a discrete parameter and dispatches on the holder's type
+            tasks.append(dict(N=1, box="B1", r=r, eps=0.01, kind="zig", par=[list(slopes), L], constraints=2))
     for c in ((0.0, 0.0), (1.0, 1.0 / 3.0), (0.5, 1.0)):
         for L, r in ((0.5 * 2.0 / K(2), 2.0), (0.95 * 3.5 / K(2), 3.5)):
             tasks.append(dict(N=2, box="B1", r=r, eps=0.1, kind="cone", par=[[[0.0, L, list(c)]], 2], holder="fresh"))
